@@ -339,8 +339,8 @@ class QUEST:
         # Parameters of characeristic equation (eq. 63)
         sigma = B.trace()
         Delta = np.linalg.det(S)
-        adjS = Delta*np.linalg.inv(S)
-        kappa = adjS.trace()
+        # tr(adj(S)) is the sum of the principal 2x2 minors of S: defined for a singular S too (no inverse needed)
+        kappa = (S[0, 0]*S[1, 1] - S[0, 1]*S[1, 0]) + (S[0, 0]*S[2, 2] - S[0, 2]*S[2, 0]) + (S[1, 1]*S[2, 2] - S[1, 2]*S[2, 1])
         ### Elements of characteristic polynomial (eq. 71)
         a = sigma**2 - kappa
         b = sigma**2 + z.T @ z
